@@ -547,6 +547,14 @@ func (s *treeScn) finish(root *tnode, how string, cancel context.CancelFunc) (st
 	}
 	// shut everything down through the root and check termination
 	tr.LogRaw("drv", "call.close", fmt.Sprintf(`"node":0,"stage":%q,"how":%q`, root.stage, how))
+	// Refilter calls racing with the shutdown: they return nil or ErrNotRunning, and nothing may be left behind
+	for _, n := range s.nodes {
+		if n.refil != nil && !n.closed && s.rng.Intn(2) == 0 {
+			n := n
+			f := s.mkFilter(treeFilters[s.rng.Intn(len(treeFilters))])
+			go func() { hw_raceRefilter(n, f) }()
+		}
+	}
 	closeRet := make(chan struct{})
 	go func() {
 		switch how {
@@ -639,6 +647,15 @@ func (s *treeScn) finish(root *tnode, how string, cancel context.CancelFunc) (st
 	}
 	tr.LogRaw(root.stage, "ctl.final", fmt.Sprintf(`"done":%v,"err":%q,"ready":%v,"how":%q`, isClosed(ctl.Done()), errs, isClosed(ctl.Ready()), how))
 	return stuck, leak
+}
+
+func hw_raceRefilter(n *tnode, f filter.Filter) {
+	done := make(chan struct{})
+	go func() { n.refil.Refilter(f); close(done) }()
+	select {
+	case <-done:
+	case <-time.After(4 * time.Second):
+	}
 }
 
 func (s *treeScn) barrier(why string) bool {
